@@ -783,6 +783,21 @@ func (s *c36Scenario) continueOn(t c36Fataler, svc *Service, i int, seen c36Seen
 		}
 	}()
 	cur := seen.head
+	// "a finalised set id no older than before": a finalisation that names an OLDER authority set
+	// than the stored highest (round, set id) - e.g. a late justification - must still be refused by
+	// the restarted node, and must leave the stored record as it is
+	if hr0, hs0, err := svc.Block.GetHighestRoundAndSetID(); err == nil && hs0 >= 1 {
+		head, err := svc.Block.GetHighestFinalisedHash()
+		if err != nil {
+			return cnt, fmt.Sprintf("after the restart: GetHighestFinalisedHash: %v", err)
+		}
+		if err := svc.Block.SetFinalisedHash(head, hr0+5, hs0-1); err == nil {
+			return cnt, fmt.Sprintf("after the restart: SetFinalisedHash(head, round %d, set %d) accepted although the stored highest is (round %d, set %d)", hr0+5, hs0-1, hr0, hs0)
+		}
+		if hr1, hs1, err := svc.Block.GetHighestRoundAndSetID(); err != nil || hr1 != hr0 || hs1 != hs0 {
+			return cnt, fmt.Sprintf("after the restart: a refused finalisation of an older set changed the stored highest (round, set id) from (%d,%d) to (%d,%d), %v", hr0, hs0, hr1, hs1, err)
+		}
+	}
 	imported := map[int]bool{}
 	for k := range s.ops {
 		op := &s.ops[k]
